@@ -1,5 +1,6 @@
 import XzVerif.Proofs.Segment
 import XzVerif.Proofs.GoSrcHash
+import XzVerif.Proofs.GoSrcHash2
 import XzVerif.Proofs.Tables
 import XzVerif.Proofs.XzRoundTrip
 import XzVerif.Proofs.Select
@@ -274,6 +275,17 @@ theorem C01_source_hashtable_maintenance :
   ⟨GoSrcP.hashTableExponent_spec, GoSrcP.writeByte_eq_putEntryM,
    fun g t rel h hn hord => GoSrcP.putEntry_refines g t rel h hn hord,
    GoSrcP.putEntry_early, GoSrcP.buffered_refines⟩
+
+/-- `hashTable.getMatches` from the source (the walk along the delta chain of a hash slot, the ring index `rear + delta` with
+    its wrap, the out-parameter) lists the positions of `Tab.getMatches` (Model/HashTable.lean), most recent first, at most
+    16; no index panic on a well-formed table -/
+theorem C01_source_hashtable_getMatches (fuel : Nat) (g : GoSrc.T_hashTable) (t : HT.Tab) (rel : GoSrcP.TabRel g t)
+    (h : BitVec 64) (positions : Array (BitVec 64)) (hsz : positions.size = 16) (hfuel : 20 ≤ fuel)
+    (hord : ∀ i, i < t.t.size → t.t.getD i 0 ≤ t.n - 4 + 1) :
+    ∃ n pos', GoSrc.hashTable_getMatches fuel g h positions = Go.Res.ok (BitVec.ofNat 64 n, pos') ∧
+      n = (t.getMatches (UInt64.ofNat h.toNat)).length ∧ pos'.size = 16 ∧
+      ∀ k, k < n → (pos'.getD k 0#64).toNat = (t.getMatches (UInt64.ofNat h.toNat)).getD k 0 :=
+  GoSrcP.getMatches_refines fuel g t rel h positions hsz hfuel hord
 
 theorem C01_source_translation_complete : GoSrc.failures = [] := by decide
 
